@@ -157,6 +157,41 @@ Example C14_sig_field_lost_example :
              (le_bytes 4 1) (le_bytes 8 2) (le_bytes 8 3) (le_bytes 4 4) ++ [104; 105; 1; 0].
 Proof. vm_compute. reflexivity. Qed.
 
+(* operation level: ONE data/header write of the session lost (operation 9+i of a create session, 1+i of
+   an append session: the cursor moved, the bytes never reached the disk), EVERY later crash point:
+   what the reader is handed is the new next header (create) / the old or the new one (append), up to
+   the named collisions.  (Lost DATA is then caught by the per-member CRCs at extraction, not here.) *)
+Theorem C14_create_lost_body_write_safe : forall pre hdr i k j h,
+  32 + zlenb (concat pre) < 2 ^ 63 -> zlenb (concat hdr) < 2 ^ 63 ->
+  (i < length (pre ++ hdr))%nat ->
+  open_view (image_lost [] (create_trace pre hdr) (9 + i) k j) = Some h ->
+  (h = concat hdr \/ collides h (concat hdr))
+  \/ exists m, (9 <= m <= 15)%nat /\ 256 ^ (Z.of_nat m - 8) <= zlenb (concat hdr) /\
+       collides (mix m (new20 0 pre hdr) skel20) (new20 0 pre hdr) /\ crc32 h = 4.
+Proof. exact create_lost_body_write_safe_proof. Qed.
+Print Assumptions C14_create_lost_body_write_safe.
+
+Theorem C14_append_lost_body_write_safe : forall old p pre hdr oh i k j h,
+  wf_bytes old = true -> open_view old = Some oh -> (32 <= p <= length old)%nat ->
+  Z.of_nat p + zlenb (concat pre) < 2 ^ 63 -> zlenb (concat hdr) < 2 ^ 63 ->
+  (i < length (pre ++ hdr))%nat ->
+  open_view (image_lost old (append_trace old p pre hdr) (1 + i) k j) = Some h ->
+  (h = oh \/ collides h oh) \/ (h = concat hdr \/ collides h (concat hdr))
+  \/ exists m, (m < 16)%nat /\
+       collides (mix m (new20 (Z.of_nat p - 32) pre hdr) (old20 old)) (new20 (Z.of_nat p - 32) pre hdr).
+Proof. exact append_lost_body_write_safe_proof. Qed.
+Print Assumptions C14_append_lost_body_write_safe.
+
+(* hypotheses met: the toy create session with its data write (operation 9) lost and everything else on
+   disk is accepted -- with the right next header (the two data bytes are zeros: extraction would report
+   a CRC error) *)
+Example C14_lost_body_write_example :
+  (0 < length ([[104; 105]] ++ [[1; 0]]))%nat /\
+  image_lost [] (create_trace [[104; 105]] [[1; 0]]) (9 + 0) 19 0 =
+    firstn 32 (final_image [] (create_trace [[104; 105]] [[1; 0]])) ++ [0; 0; 1; 0] /\
+  open_view (image_lost [] (create_trace [[104; 105]] [[1; 0]]) (9 + 0) 19 0) = Some [1; 0].
+Proof. repeat split; vm_compute; try reflexivity; lia. Qed.
+
 (* ---------------- the unsafe window: archives with an ENCODED header ---------------- *)
 
 (* py7zr writes encoded headers WITHOUT the CRC of the plain header (UnpackInfo.write: "FIXME: write
